@@ -104,6 +104,66 @@ fn main() {
 				}
 			}
 		}
+		"digests" => {
+			// digests <check> <tier> <from> <to> <reverse 0|1>: one "case digest" line per case
+			let def = checks::find(args.get(2).unwrap_or_else(|| usage())).unwrap_or_else(|| usage());
+			let tier = tier_of(args.get(3));
+			let from: u64 = args.get(4).and_then(|s| s.parse().ok()).unwrap_or(0);
+			let to: u64 = args.get(5).and_then(|s| s.parse().ok()).unwrap_or(10);
+			let rev = args.get(6).map(|s| s == "1").unwrap_or(false);
+			case::install_panic_hook();
+			case::warmup();
+			let seed = framework::verif_seed();
+			let mut cases: Vec<u64> = (from..to).collect();
+			if rev {
+				cases.reverse();
+			}
+			for c in cases {
+				let cs = rng::derive(seed, def.id, c);
+				let plan = (def.gen)(cs, c, tier);
+				let j = (def.judge)(&plan, tier);
+				println!("{} {:016x}", c, framework::fingerprint(&j));
+			}
+			case::cleanup_scratch();
+		}
+		"selftest" => {
+			// determinism: every case must produce the same fingerprint in two separate
+			// processes that run the cases in opposite orders
+			let n: u64 = args.get(2).and_then(|s| s.parse().ok()).unwrap_or(40);
+			let exe = std::env::current_exe().unwrap();
+			let mut bad = 0;
+			let mut total = 0;
+			for def in checks::all() {
+				let run = |rev: &str| -> std::collections::BTreeMap<u64, String> {
+					let o = std::process::Command::new(&exe).args(["digests", def.id, "quick", "0", &n.to_string(), rev]).output().expect("spawn");
+					String::from_utf8_lossy(&o.stdout)
+						.lines()
+						.filter_map(|l| {
+							let mut it = l.split_whitespace();
+							Some((it.next()?.parse().ok()?, it.next()?.to_string()))
+						})
+						.collect()
+				};
+				let a = run("0");
+				let b = run("1");
+				let mut diff = 0;
+				for (k, v) in &a {
+					total += 1;
+					if b.get(k) != Some(v) {
+						diff += 1;
+						eprintln!("NONDETERMINISM {} case {}: {} vs {:?}", def.id, k, v, b.get(k));
+					}
+				}
+				if a.len() as u64 != n || b.len() as u64 != n {
+					eprintln!("selftest {}: expected {} digests, got {} / {}", def.id, n, a.len(), b.len());
+					diff += 1;
+				}
+				println!("selftest determinism {}: {} cases x 2 processes (opposite orders), {} differences", def.id, a.len(), diff);
+				bad += diff;
+			}
+			println!("selftest determinism: {} case executions compared, {} differences", total, bad);
+			std::process::exit(if bad == 0 { 0 } else { 2 });
+		}
 		"lock-child" => {
 			let dir = args.get(2).unwrap_or_else(|| usage());
 			std::process::exit(checks::lock::lock_child(dir));
